@@ -38,7 +38,7 @@ var c04Procs = []string{"1", "2", "4", "16"}
 func init() {
 	core.Register(&core.Property{
 		ID:   "C04",
-		Rule: "8 worker processes, one per (GOMAXPROCS in {1,2,4,16}) x (TZ in {UTC, Asia/Kolkata, America/St_Johns, Pacific/Chatham}) pairing, built with the Go race detector: E shared compiled expressions (all node kinds, clock functions with OverrideTime, custom and experimental functions, patch expressions) x R shared generated resources; every (expression, resource) pair is first evaluated alone in a fresh goroutine, then repeated, interleaved (A,B,A) and evaluated concurrently from G in {2,8,32} goroutines with randomised order on the shared objects, every result compared with the isolated one; concurrent Compile histories with random option sets; process-wide function tables read through the verif hook at every quiescent point; clock functions compared with an independent formatting of the OverrideTime value with a sleeping custom function between them, and bracketed by wall-clock reads without override; renderings compared across the four time zones. distinct_nontrivial = distinct (expression, resource, phase) triples with a non-empty result, plus distinct Compile option sets",
+		Rule: "8 worker processes, one per (GOMAXPROCS in {1,2,4,16}) x (TZ in {UTC, Asia/Kolkata, America/St_Johns, Pacific/Chatham}) pairing, built with the Go race detector: E shared compiled expressions (all node kinds, clock functions with OverrideTime, custom and experimental functions, patch expressions) x R shared generated resources; every (expression, resource) pair is first evaluated alone in a fresh goroutine, then repeated, interleaved (A,B,A) and evaluated concurrently from G in {2,8,32} goroutines with randomised order on the shared objects, every result compared with the isolated one; concurrent Compile histories with random option sets; process-wide function tables read through the verif hook at every quiescent point; clock functions compared with an independent formatting of the OverrideTime value with a sleeping custom function between them, and bracketed by wall-clock reads without override; renderings compared across the four time zones. a first-touch phase (g goroutines make the very first evaluations on a fresh copy of a resource and fresh environment objects at the same moment) and a comparison of all shared inputs with pristine copies after every repetition; distinct_nontrivial = distinct (expression, resource, phase) triples with a non-empty result, plus distinct Compile option sets",
 		Assumptions: []string{"the race detector only sees executed accesses; schedules are those the Go scheduler produced (overlap is measured and reported, not enumerated)",
 			"monitor state is per goroutine and merged after join, so that the monitor adds no synchronisation between evaluations"},
 		Workers:   func(tier string) int { return 8 },
